@@ -195,3 +195,7 @@ def run(ctx):
     # claims more reaches past what has arrived when the stream's entry is flushed
     from rules import c16
     c16.rule_string(ctx, R="C10/strings-are-written")
+    # ... and only descriptors recorded for THIS image are referenced: a descriptor left over from an aborted request points into
+    # bytes that were never appended to this one (same rule instance as C19/stale-field)
+    from rules import c19
+    c19.rule_stale_field(ctx, rule="C10/no-stale-references", only=("memory_blocks", "crashing_thread_context"))
